@@ -288,15 +288,17 @@ def rule_fading_noise(repo: Repo, rep: Report) -> int:
     fi = repo.func(AN, "FlatFadingChannel.forward")
     n = 0
     H = Mono.sym("h")
-    for mode in ("power", "snr"):
+    for mode, real_in in (("power", False), ("snr", False), ("power", True)):
+        # real_in: the input is real-valued and is promoted to x + 0j; the faded signal is complex either way and the
+        # configured noise power must be delivered in full (both quadrature components)
         atoms = {
             "csi is not None": True, "noise is not None": False, "self.snr_db is not None": mode == "snr", "self.avg_noise_power is not None": mode == "power",
-            "is_1d": False, "len(x.shape) > 2": False, "len(original_shape) > 2": False, "not torch.is_complex(x)": False, "torch.is_complex(y)": True,
+            "is_1d": False, "len(x.shape) > 2": False, "len(original_shape) > 2": False, "not torch.is_complex(x)": real_in, "torch.is_complex(x)": not real_in, "torch.is_complex(y)": True,
         }
         attrs = {"self.avg_noise_power": SV("det", P) if mode == "power" else NONE_V, "self.snr_db": DBP("snr_db") if mode == "snr" else NONE_V}
         v, it = run_fn(repo, fi, {"x": SIG, "csi": SV("det", H, tag="csi"), "noise": NONE_V}, atoms, attrs)
         want = P if mode == "power" else H.pow(2) * E() / N / L("snr_db")
-        expect_out(rep, "VARIANCE-LAW" if mode == "power" else "SNR-LAW", fi, f"FlatFadingChannel.forward noise stage ({mode}; y = h*x)", v, H, want, it, fi.node)
+        expect_out(rep, "VARIANCE-LAW" if mode == "power" else "SNR-LAW", fi, f"FlatFadingChannel.forward noise stage ({mode}; y = h*x{'; real input' if real_in else ''})", v, H, want, it, fi.node)
         n += 1
     atoms = {"csi is not None": True, "noise is not None": True, "is_1d": False, "len(x.shape) > 2": False, "len(original_shape) > 2": False, "not torch.is_complex(x)": False}
     v, it = run_fn(repo, fi, {"x": SIG, "csi": SV("det", H, tag="csi"), "noise": SV("ext", tag="noise")}, atoms, {})
